@@ -4,6 +4,7 @@ package main
 
 import (
 	"fmt"
+	"go/ast"
 	"go/constant"
 	"go/token"
 	"regexp"
@@ -340,6 +341,64 @@ func c06d(c *Ctx, r *Report, st *Staged) {
 			r.Check(okDefault, clause, "R4 DECISION-TABLE", name+"/unknown-token-maps-to-column-0", sk.pos(fd.Pos()),
 				"a token code with no case maps to column 0 (`start`), which holds the error code in every state",
 				"a token code with no case does not map to column 0: an unknown token may index outside the table or hit a non-error cell")
+			// … and translate is the ONLY mapping between the lexer's code and the column: every code GetToken returns
+			// goes through it unchanged (a shortcut such as "codes ≤ 0 are the end marker" turns an unknown token into
+			// end of input and a non-sentence whose prefix is a sentence is accepted)
+			lname := "skeleton " + sk.V.Name + "/lookahead-is-translate-of-the-lexer-code"
+			var srcs []string
+			nFetch := 0
+			for _, fdl := range sk.File.Decls {
+				gd, isF := fdl.(*ast.FuncDecl)
+				if !isF || gd.Body == nil {
+					continue
+				}
+				ast.Inspect(gd.Body, func(n ast.Node) bool {
+					call, isC := n.(*ast.CallExpr)
+					if !isC {
+						return true
+					}
+					if id, isI := call.Fun.(*ast.Ident); isI && id.Name == "GetToken" {
+						nFetch++
+						// the statement form: translate(GetToken(…)) directly, or token := GetToken(…); return translate(token)
+						srcs = append(srcs, gd.Name.Name)
+					}
+					return true
+				})
+			}
+			why := ""
+			if nFetch == 0 {
+				why = "the generated parser never calls GetToken"
+			}
+			for _, fname := range srcs {
+				gd := sk.FuncDecl("", fname)
+				if gd == nil {
+					gd = sk.FuncDecl("Context", fname)
+				}
+				if gd == nil {
+					continue
+				}
+				pe2 := newPathEnum(sk.Info)
+				ps2, err2 := pe2.Enumerate(gd.Body.List)
+				if err2 != nil {
+					continue // a driver function: judged below by its own uses
+				}
+				// in a function whose result is the lookahead (an int function calling GetToken): every path returns translate(GetToken(…))
+				if gd.Type.Results == nil || len(gd.Type.Results.List) != 1 || fname == "Parser" {
+					continue
+				}
+				for _, p := range ps2 {
+					if p.Kind != "return" || len(p.Vals) != 1 {
+						why = "a path of " + fname + " does not return a lookahead"
+						continue
+					}
+					v := p.Vals[0].String()
+					if !strings.HasPrefix(v, "main.translate(main.GetToken(") {
+						why = fname + " returns " + v + " on the path [" + p.CondString() + "], not translate(GetToken(…))"
+					}
+				}
+			}
+			r.Check(why == "", clause, "R4 DECISION-TABLE", lname, sk.pos(fd.Pos()),
+				"every lexer code becomes a column through translate and nothing else", why)
 		}
 	}
 }
